@@ -2,6 +2,7 @@
   Props/C01.lean — C01: hierarchy and dependency graph stay well-formed under any mutation history.
 -/
 import PjVerif.Lemmas.GraphPerm
+import PjVerif.Lemmas.TaskSrcD
 namespace Pj
 
 /-- a universe of isolated tasks and empty WBSs is well-formed -/
@@ -42,5 +43,37 @@ theorem C01_run (ops : List Op) (s : G) (hw : WF s) (hv : ∀ op ∈ ops, op.vis
 theorem C01_run_prefix (ops pre : List Op) (s : G) (hw : WF s) (hv : ∀ op ∈ ops, op.visible s)
     (hp : pre <+: ops) : WF (run s pre) :=
   C01_run pre s hw (fun op hop => hv op (hp.subset hop))
+
+/-! ### the tie of the relation setters of `Task` to the current source, by translation (tools/extract_task.py → Extracted/TaskSrc.lean,
+    Lemmas/TaskSrc*.lean): the statements above are about the model's `setParent` / `setPreds` / `setSuccs` / `setChildren`; these say that
+    the model's functions are what the CURRENT task.py computes -/
+
+/-- running the translated `parent` setter (with `_find_root`, `_collect_subtree`, `_has_id_intersection`, `_linked_with_any`, `_attach`,
+    `_detach`, `all_parents`, `all_children` as translated callees) on the encoding of a well-formed state gives the encoding of the
+    model's new state when the model accepts and the model's error when it rejects - unless the model's fuel runs out -/
+theorem C01_source_set_parent (s : G) (hw : WF s) (t : Uid) (p : Option Uid) (F : Nat) (hF : s.n + 6 ≤ F)
+    (hrec : (setParent s t p).2 ≠ some (.crash .recursion)) :
+    TaskSrc.interpSetParent F t p (TaskSrc.encSt s) = TaskSrc.setterResult (TaskSrc.encSt s) (setParent s t p) :=
+  TaskSrc.interpSetParent_eq_wf s hw t p F hF hrec
+
+/-- the translated `predecessors` / `successors` setters (validation loops, unlink loop, relink loop) are the model's `setPreds` /
+    `setSuccs`, for every state (no well-formedness needed) and every admissible right-hand side (`ValueOf`: a list of tasks and
+    `None`s, one task, `None`) -/
+theorem C01_source_set_predecessors (s : G) (st : PyLite.PState) (hh : st.heap = TaskSrc.encHeap s) (t : Uid) (v : PyLite.Val)
+    (l : List Uid) (hv : TaskSrc.ValueOf v l) (F : Nat) (hF : s.n + 4 ≤ F) (hrec : (setPreds s t l).2 ≠ some (.crash .recursion)) :
+    TaskSrc.interpSetPreds F t v st = TaskSrc.setterResult st (setPreds s t l) :=
+  TaskSrc.interpSetPreds_eq s st hh t v l hv F hF hrec
+
+theorem C01_source_set_successors (s : G) (st : PyLite.PState) (hh : st.heap = TaskSrc.encHeap s) (t : Uid) (v : PyLite.Val)
+    (l : List Uid) (hv : TaskSrc.ValueOf v l) (F : Nat) (hF : s.n + 4 ≤ F) (hrec : (setSuccs s t l).2 ≠ some (.crash .recursion)) :
+    TaskSrc.interpSetSuccs F t v st = TaskSrc.setterResult st (setSuccs s t l) :=
+  TaskSrc.interpSetSuccs_eq s st hh t v l hv F hF hrec
+
+/-- the translated `children` setter (validations, release of the old children, the loop of `v.parent = self` assignments - each
+    running the translated `parent` setter on an intermediate state) is the model's `setChildren`, for every state -/
+theorem C01_source_set_children (s : G) (st : PyLite.PState) (hh : st.heap = TaskSrc.encHeap s) (h : Uid) (v : PyLite.Val)
+    (l : List Uid) (hv : TaskSrc.ValueOf v l) (F : Nat) (hF : s.n + 6 ≤ F) (hrec : (setChildren s h l).2 ≠ some (.crash .recursion)) :
+    TaskSrc.interpSetChildren F h v st = TaskSrc.setterResult st (setChildren s h l) :=
+  TaskSrc.interpSetChildren_eq s st hh h v l hv F hF hrec
 
 end Pj
